@@ -218,6 +218,10 @@ class ParsedCommand(object):
         import numpy as np  # noqa
         if data is not None and np.isscalar(result):
             result = np.ones(data.shape) * result
+            # The expression didn't reference any component, so the view
+            # hasn't been applied yet
+            if view is not None:
+                result = result[view]
 
         return result
 
